@@ -7,7 +7,7 @@ CONFIG = {
     "extracted": ["gds"],
     "driver": "gds",
     "harness": "gds",
-    "kinds": "wr,rd,rt",
+    "kinds": "wr,rd,rt,gw",
     "rule": ("random libraries on the integer grid (1-4 cells, polygons, simple paths with all end types, labels, references "
              "by cell / by name incl. absent targets, every repetition kind, GDSII properties): kind wr = bytes of "
              "Library::write_gds versus write_gds_model on the expanded write plan (byte for byte); rd = canonical grid dump of "
